@@ -73,6 +73,10 @@ class Spec:
     def bind(self, st, a, inst):
         return {}
 
+    def ghost_update(self, old, st, a, result):
+        """Witness for the post-state ghost terms: dict ghost name -> term over the old ghost/new heap."""
+        return {}
+
     def result_value(self, st, a):
         """Fresh symbolic result when used as a callee contract."""
         return None
